@@ -315,18 +315,16 @@ def pool_map(job_fn, jobs: list, workers: int | None = None, wall_cap: float | N
 
 def interleave(primary: list, secondary: list) -> list:
     """primary with the items of secondary spread evenly through it (order within each kept): when a wall cap
-    truncates a batch, both kinds have progressed proportionally."""
+    truncates a batch, both kinds have progressed proportionally.  Positions are jittered by a hash, not strictly
+    periodic: with the static job -> worker assignment (index mod W) a fixed period would put every secondary
+    item on the same few workers."""
     if not primary or not secondary:
         return list(primary) + list(secondary)
-    every = max(1, len(primary) // len(secondary))
-    out = []
-    si = 0
-    for n_, x in enumerate(primary):
-        out.append(x)
-        if (n_ + 1) % every == 0 and si < len(secondary):
-            out.append(secondary[si])
-            si += 1
-    return out + list(secondary[si:])
+    P, S = len(primary), len(secondary)
+    keyed = [((n_ + 0.5) / P, 0, n_, x) for n_, x in enumerate(primary)]
+    keyed += [((k + (derive(0, "interleave", k) % 1000) / 1000.0) / S, 1, k, y) for k, y in enumerate(secondary)]
+    keyed.sort(key=lambda t: (t[0], t[1], t[2]))
+    return [t[3] for t in keyed]
 
 
 # --------------------------------------------------------------------------
